@@ -414,7 +414,7 @@ class Assembler:
         per = {}
         cur = None
         for raw in block:
-            m = re.match(r'\s*(fn|const|type) (\w+): ?(.*)$', raw)
+            m = re.match(r'\s*(fn|const|type) (\w+|\*): ?(.*)$', raw)
             if m:
                 cur = per.setdefault((m.group(1), m.group(2)), [])
                 cur.append('  ' + m.group(3))
@@ -427,7 +427,9 @@ class Assembler:
                 self.report.setdefault('skipped_items', []).append(f'{rel.strip()} :: {ipath.strip()} :: {ch.kind} {ch.name}')
                 continue
             is_trait_impl = ' for ' in imp.name
-            lines = (['  novis'] if is_trait_impl else []) + per.get((ch.kind, ch.name), [])
+            # `fn *: <option>` lines are the defaults for items the template does not name
+            # (an item ADDED to the block by an edit is verified under these, without a contract)
+            lines = (['  novis'] if is_trait_impl else []) + per.get((ch.kind, ch.name), per.get((ch.kind, '*'), []))
             if ch.kind == 'const' and not per.get((ch.kind, ch.name)):
                 self.out.append(('    #[verifier::external_body]', ('tpl', tplpos[0], tplpos[1])))
             self.extract(f'{rel.strip()} :: {ipath.strip()} :: {ch.kind} {ch.name}', lines, tplpos)
